@@ -218,8 +218,8 @@ func runBlock(c blockCase, policy func(y vsync.Yield, i int) int) (res blockResu
 	// ---- invariants at quiescence (exported API only) ----
 	store := w.Store()
 	type live struct {
-		s   *models.Session
-		id  string
+		s  *models.Session
+		id string
 	}
 	sessions := map[*models.Session]bool{}
 	for slot := range ex.M.Conns {
@@ -547,12 +547,40 @@ func genBlockCase(rt *rapid.T) blockCase {
 		{"join_existing", "close"}, {"close", "close"}, {"join_new", "join_new"}, {"join_existing", "join_existing"},
 		{"entity_add", "entity_add"}, {"type_add", "type_add"}, {"join_existing", "entity_add"}, {"join_existing", "entity_del"},
 		{"custom", "close"}, {"asset", "asset"}, {"join_new", "close"}, {"join_existing", "close", "join_new"}, {"close", "close", "join_existing"},
-		{"sub", "comp_add"}, {"type_add", "type_add", "type_add"},
+		{"sub", "comp_add"}, {"type_add", "type_add", "type_add"}, {"close", "close", "join_new"}, {"close", "join_new", "join_new"}, {"close", "close", "close"},
 	}
 	if uni(rt, "templated", 4) != 0 {
 		tpl := pick(rt, "template", templates)
+		directed := uni(rt, "directed", 3) != 0
+		if directed {
+			// a minimal prefix that fits the template: the requests that need a session
+			// come from the (only) members of one session; joins come from outside
+			c.Prefix, c.Conns = nil, 4
+			first := -1
+			for i, k := range tpl {
+				if !strings.HasPrefix(k, "join") {
+					if first < 0 {
+						first = i
+						c.Prefix = append(c.Prefix, Step{Conn: i, Op: OpJoin, Sess: Ref{Kind: SessNew}})
+					} else {
+						c.Prefix = append(c.Prefix, Step{Conn: i, Op: OpJoin, Sess: Ref{Kind: SessLive}})
+					}
+				}
+			}
+			if first < 0 {
+				first = 3
+				c.Prefix = append(c.Prefix, Step{Conn: 3, Op: OpJoin, Sess: Ref{Kind: SessNew}})
+			}
+			for i, k := range tpl {
+				if !strings.HasPrefix(k, "join") {
+					c.Prefix = append(c.Prefix, Step{Conn: i, Op: OpEntityAdd, Persist: uni(rt, "persist", 2) == 0})
+				}
+			}
+			c.Prefix = append(c.Prefix, Step{Conn: first, Op: OpTypeAdd, Name: "a"}, Step{Conn: first, Op: OpSub, Typ: Ref{Kind: TypEver}})
+			conn = func(i int) int { return i }
+		}
 		for i, k := range tpl {
-			if i < sc.Cfg.Conns {
+			if i < c.Conns {
 				n := uni(rt, "bn", 6)
 				if k == "type_add" {
 					n = 0 // the same name
@@ -610,14 +638,18 @@ func schedTest(t *testing.T, prop string) {
 		if L < 2 {
 			L = 2
 		}
-		c.Choices = make([]int, L+8)
-		for i := range c.Choices {
-			c.Choices[i] = -1
+		draw := func() []int {
+			ch := make([]int, L+8)
+			for i := range ch {
+				ch[i] = -1 - uni(rt, "tie", 3) // -1: lowest id next when the running request ends; -2.. another one
+			}
+			ch[0] = uni(rt, "first", 3)
+			for k, n := 0, 1+uni(rt, "preemptions", 3); k < n; k++ {
+				ch[1+uni(rt, "at", L-1)] = 100 + uni(rt, "to", 2)
+			}
+			return ch
 		}
-		c.Choices[0] = base[0]
-		for k, n := 0, 1+uni(rt, "preemptions", 3); k < n; k++ {
-			c.Choices[1+uni(rt, "at", L-1)] = 100 + uni(rt, "to", 2)
-		}
+		c.Choices = draw()
 		report := func(res blockResult, choices []int) {
 			if res.viol != "" && schedTags(prop, res.tags) {
 				col.Violations++
@@ -638,6 +670,16 @@ func schedTest(t *testing.T, prop string) {
 		b, _ := jsonMarshal(c)
 		col.Case(b, res.preempts >= 1, map[string]int{"yields": res.yields, "preempted": res.preempts, "deadlock": b2i(res.deadlock), "other_property": b2i(res.viol != "" && !schedTags(prop, res.tags))}, func() any { return c.pretty() })
 		report(res, c.Choices)
+		// a few more sampled schedules of the same block
+		for j := 0; j < 10; j++ {
+			ch := draw()
+			r := run(ch)
+			cc := c
+			cc.Choices = ch
+			bb, _ := jsonMarshal(cc)
+			col.Case(bb, r.preempts >= 1, map[string]int{"extra_schedule": 1, "preempted": r.preempts}, func() any { return cc.pretty() })
+			report(r, ch)
+		}
 		if thorough && exhaustiveBlocks < 400 {
 			// every schedule with at most 2 preemptions of this block (stateless re-execution)
 			exhaustiveBlocks++
@@ -675,6 +717,10 @@ func schedulePolicy(choices []int, y vsync.Yield, i int) int {
 		if e == y.Running {
 			return k
 		}
+	}
+	// the running request has finished or is blocked: who is next is a choice too
+	if i < len(choices) && choices[i] <= -2 {
+		return (-choices[i] - 2) % len(y.Enabled)
 	}
 	return 0
 }
